@@ -288,7 +288,80 @@ def run(tier):
             bad = [d for k in ("live", "idem") for ok, d in agg.get(k, []) if not ok]
             C.ob("C07/formatter-multiline-output", lname, not bad, "with a value formatter whose output has several lines: " + (bad[0] if bad else ""), F.fn(P + "Entry::wrap_and_sort")["sp"])
     C.floor("C07/runs", n, 30, "layout x settings combinations")
+    check_control_comparator(F, C)
     C.assumptions += ["format_value (control-file formatter) path not covered here", "token text lengths are unknown: length-dependent layout decisions are explored both ways",
                       "bounded: 3 layouts x settings matrix; comparators depend on field names only"]
     return C.finish("wrap_and_sort is interpreted on the parser's trees for symbolic documents over the settings matrix; every outcome must parse strictly, keep paragraphs/fields/value lines (in the requested order) and comments in front of the same field, "
                     "indent continuation lines by the requested width, separate paragraphs by one blank line, report the same content as its re-read, and be a fixed point of a second application.")
+
+
+# ----------------------------------------------------------------------------- control-file wrapper: paragraph comparator
+def check_control_comparator(F, C):
+    """Control::wrap_and_sort sorts paragraphs with a closure; it must be a consistent order (antisymmetric, reflexive),
+    put source stanzas first and order stanzas of the same kind by name - otherwise repeated reformatting reorders."""
+    import c15, c13
+    key = "debian_control::lossless::control::Control::wrap_and_sort"
+    f = F.fn(key)
+    if not C.ob("C07/anchor", key, f is not None, "not found"):
+        return
+    clos = [x for x in facts.walk(f["body"]) if x.get("k") == "Closure" and len(x.get("params", [])) == 2]
+    if not C.ob("C07/anchor", key + " paragraph comparator", len(clos) >= 1, "no two-argument closure found"):
+        return
+
+    class M(c15.Mod):
+        def intrinsic(self, I, callee, args, st, n):
+            if callee.endswith("as core::cmp::Ord>::cmp") or callee == "core::cmp::Ord::cmp":
+                a, b = I.deref_val(st, args[0]), I.deref_val(st, args[1])
+
+                def keyof(v):
+                    if v[0] == "enum" and v[1] == NONE:
+                        return (0, b"")
+                    if v[0] == "enum" and v[1] == SOME:
+                        x = I.deref_val(st, v[2][0])
+                        if x[0] in ("sstr", "str") and symstr.is_concrete(symstr.pieces_of(x)):
+                            return (1, symstr.show(x).encode())
+                    if v[0] in ("sstr", "str") and symstr.is_concrete(symstr.pieces_of(v)):
+                        return (1, symstr.show(v).encode())
+                    return None
+                ka, kb = keyof(a), keyof(b)
+                if ka is not None and kb is not None:
+                    return [(OK, c13.ordering(-1 if ka < kb else 1 if ka > kb else 0), st)]
+            return super().intrinsic(I, callee, args, st, n)
+
+    def para(pairs):
+        return ("abs", "para", tuple((symstr.lit(k), symstr.lit(v)) for k, v in pairs))
+    stanzas = {"source aaa": para([("Source", "aaa")]), "source bbb": para([("Source", "bbb"), ("Section", "x")]),
+               "binary aaa": para([("Package", "aaa")]), "binary bbb": para([("Package", "bbb")]),
+               "binary ccc with Source field": para([("Package", "ccc"), ("Source", "aab")])}
+    mod = M(F)
+    I = hirai.Interp(F, mod)
+    st0 = hirai.State(depth=1)
+    cvs = I.eval(clos[0], st0)
+    if not C.ob("C07/control-comparator", "closure value", len(cvs) == 1 and cvs[0][0] == OK, "cannot evaluate the closure expression"):
+        return
+    cv, st1 = cvs[0][1], cvs[0][2]
+    res = {}
+    names = list(stanzas)
+    for a in names:
+        for b in names:
+            s, pa = I.newtemp(st1, stanzas[a])
+            s, pb = I.newtemp(s, stanzas[b])
+            out = I.apply(cv, [("ref", pa), ("ref", pb)], s, {})
+            vals = {I.deref_val(s2, v)[1].rsplit("::", 1)[-1] if ctl == OK and I.deref_val(s2, v)[0] == "enum" else "?%s" % ctl for ctl, v, s2 in out}
+            res[(a, b)] = vals
+    flip = {"Less": "Greater", "Greater": "Less", "Equal": "Equal"}
+    n = 0
+    for a in names:
+        for b in names:
+            n += 1
+            ra, rb = res[(a, b)], res[(b, a)]
+            ok = len(ra) == 1 and len(rb) == 1 and not any(x.startswith("?") for x in ra | rb)
+            if a == b:
+                C.ob("C07/control-comparator", "cmp(%s, %s)" % (a, a), ok and ra == {"Equal"}, "comparing a stanza with itself gives %s" % sorted(ra), f["sp"])
+            else:
+                C.ob("C07/control-comparator", "cmp(%s, %s) vs cmp(%s, %s)" % (a, b, b, a), ok and {flip[x] for x in ra} == rb,
+                     "not antisymmetric: %s / %s (an inconsistent comparator makes repeated reformatting reorder paragraphs)" % (sorted(ra), sorted(rb)), f["sp"])
+    C.ob("C07/control-comparator", "source stanzas sort before binary stanzas", res[("source bbb", "binary aaa")] == {"Less"}, "cmp(source bbb, binary aaa) = %s" % sorted(res[("source bbb", "binary aaa")]), f["sp"])
+    C.ob("C07/control-comparator", "binary stanzas sort by package name", res[("binary aaa", "binary bbb")] == {"Less"}, "cmp(binary aaa, binary bbb) = %s" % sorted(res[("binary aaa", "binary bbb")]), f["sp"])
+    C.ob("C07/control-comparator", "source stanzas sort by source name", res[("source aaa", "source bbb")] == {"Less"}, "cmp(source aaa, source bbb) = %s" % sorted(res[("source aaa", "source bbb")]), f["sp"])
+    C.floor("C07/control-comparator", n, 25, "stanza pairs compared")
